@@ -44,6 +44,7 @@ func replaceKey(doc, key, raw string) string {
 // ---------- schema generation ----------
 
 type gen struct {
+	barrx  map[int]*Schema // per array length: the registered object code / field key shared by every [N]byte of the case
 	r      *vx.Rng
 	nField int
 	nCode  int64
@@ -54,8 +55,29 @@ type gen struct {
 var numKinds = []string{"I8", "I16", "I32", "U8", "U16", "U32"}
 var nameSuffix = []string{"", "", "", "a", "ID", "URL", "NFTx", "HRP", "Xy", "IDs"}
 
+// barrxSchema: [N]byte with a registered object code (N in 3,5,6: never used by plain byte arrays) by value or
+// behind a pointer, or a pointer to a plain byte array.
+func (g *gen) barrxSchema() *Schema {
+	if g.r.Chance(1, 4) {
+		return &Schema{Kind: "barrx", Ptr: true, Code: -1, N: vx.Pick(g.r, []int{0, 1, 2, 4, 32})}
+	}
+	n := vx.Pick(g.r, []int{3, 5, 6})
+	if g.barrx == nil {
+		g.barrx = map[int]*Schema{}
+	}
+	spec := g.barrx[n]
+	if spec == nil {
+		spec = &Schema{Code: g.nCode, CodeU8: g.codeU8, RegKey: vx.Pick(g.r, []string{"", "pk", "pubKeyHash", "k"})}
+		g.nCode += 1 + int64(g.r.Intn(3))
+		g.barrx[n] = spec
+	}
+	return &Schema{Kind: "barrx", Ptr: g.r.Bool(), N: n, Code: spec.Code, CodeU8: spec.CodeU8, RegKey: spec.RegKey}
+}
+
 func (g *gen) leaf() *Schema {
-	switch g.r.Intn(12) {
+	switch g.r.Intn(13) {
+	case 11:
+		return g.barrxSchema()
 	case 0:
 		return &Schema{Kind: "bool"}
 	case 1, 2, 3:
@@ -158,8 +180,11 @@ func (g *gen) structSchemaT(depth int, iface bool, ptr bool, code bool, allowTyp
 			continue
 		}
 		f.S = g.schema(depth+1, iface)
-		if f.S.Kind == "u256" || f.S.Kind == "iface" || (f.S.Kind == "struct" && f.S.Ptr) {
+		if f.S.Kind == "u256" || f.S.Kind == "iface" || ((f.S.Kind == "struct" || f.S.Kind == "barrx") && f.S.Ptr) {
 			f.Opt = g.r.Chance(1, 2)
+		}
+		if f.TagKey == "type" && f.S.Kind == "barrx" && !f.S.Ptr && f.S.Code >= 0 {
+			f.TagKey = fmt.Sprintf("k%d", g.nField) // the tag key is also the inner key: it would overwrite the code
 		}
 		// omitempty: on every kind whose emptiness the model value determines (not maps, arrays, by-value structs)
 		if !f.Opt && f.S.Kind != "map" && f.S.Kind != "arr" && !(f.S.Kind == "struct" && !f.S.Ptr) && g.r.Chance(1, 4) {
@@ -205,7 +230,22 @@ func newCase(r *vx.Rng) (*Schema, *serix.API) {
 		g.nCode = 4294967295 - 60
 	}
 	for i, n := 0, vx.Pick(r, []int{0, 1, 2, 3}); i < n; i++ {
-		g.alts = append(g.alts, g.structSchema(1, false, false, true))
+		// alternatives: structs by value or behind a pointer (the usual registration style `(*T)(nil)`), and byte
+		// arrays with a registered object code, by value or behind a pointer (one per array length: the code is per type)
+		if r.Chance(1, 4) {
+			a := g.barrxSchema()
+			dup := a.Code < 0
+			for _, o := range g.alts {
+				if o.Kind == "barrx" && o.N == a.N {
+					dup = true
+				}
+			}
+			if !dup {
+				g.alts = append(g.alts, a)
+				continue
+			}
+		}
+		g.alts = append(g.alts, g.structSchema(1, false, r.Bool(), true))
 	}
 	top := g.structSchema(0, true, false, r.Chance(1, 4))
 	return top, setup(top)
@@ -259,6 +299,14 @@ func genValue(r *vx.Rng, s *Schema, dst reflect.Value) {
 		for i := 0; i < s.N; i++ {
 			dst.Index(i).SetUint(uint64(vx.Pick(r, []byte{0, 0, 1, 255, 171, byte(r.U64())})))
 		}
+	case "barrx":
+		if s.Ptr {
+			dst.Set(reflect.New(s.T.Elem()))
+			dst = dst.Elem()
+		}
+		for i := 0; i < s.N; i++ {
+			dst.Index(i).SetUint(uint64(vx.Pick(r, []byte{0, 0, 1, 255, 171, byte(r.U64())})))
+		}
 	case "u256":
 		m1 := new(big.Int).Sub(big256(), big.NewInt(1))
 		rnd := new(big.Int).SetUint64(r.U64())
@@ -277,7 +325,7 @@ func genValue(r *vx.Rng, s *Schema, dst reflect.Value) {
 			if f.Opt || f.Omit {
 				nilP = 12
 			}
-			if (f.S.Kind == "u256" || f.S.Kind == "iface" || (f.S.Kind == "struct" && f.S.Ptr)) && r.Chance(nilP, 30) {
+			if (f.S.Kind == "u256" || f.S.Kind == "iface" || ((f.S.Kind == "struct" || f.S.Kind == "barrx") && f.S.Ptr)) && r.Chance(nilP, 30) {
 				continue // leave nil (an error of the encoder when the field is neither optional nor omitempty)
 			}
 			if f.Omit && r.Chance(1, 3) {
@@ -612,6 +660,41 @@ func (h *harness) directed() {
 					h.decCase(ts, tapi, lit(doc), false, "directed-keyed-inlined")
 				}
 			}
+		}
+	}
+	// fixed b4a46ea: *[4]byte without type settings is written as a bare hex string, which the decoder refused ("missing
+	// type settings"); fixed 74faee1: a by-value [N]byte with a registered object code is written as an object
+	// {"type":..,key:hex}, which only the pointer path of the decoder understood (field with / without explicit tag
+	// key, slice element, map value)
+	{
+		ts := &Schema{Kind: "struct", Code: -1, Fields: []*Field{
+			{Name: "A", S: &Schema{Kind: "barrx", Ptr: true, Code: -1, N: 4}},
+			{Name: "B", TagKey: "bk", S: &Schema{Kind: "barrx", N: 3, Code: 3, CodeU8: true, RegKey: "pubKeyHash"}},
+			{Name: "C", S: &Schema{Kind: "barrx", N: 3, Code: 3, CodeU8: true, RegKey: "pubKeyHash"}},
+			{Name: "D", S: &Schema{Kind: "slice", Elem: &Schema{Kind: "barrx", N: 3, Code: 3, CodeU8: true, RegKey: "pubKeyHash"}}},
+			{Name: "E", S: &Schema{Kind: "map", Key: &Schema{Kind: "str"}, Elem: &Schema{Kind: "barrx", Ptr: true, N: 3, Code: 3, CodeU8: true, RegKey: "pubKeyHash"}}},
+			{Name: "F", Opt: true, S: &Schema{Kind: "barrx", Ptr: true, N: 3, Code: 3, CodeU8: true, RegKey: "pubKeyHash"}},
+			// 83b7f6c: a by-value coded array held in an interface field with a tag key (the tag key was taken for the inner key)
+			{Name: "G", TagKey: "gk", S: &Schema{Kind: "iface", Alts: []*Schema{{Kind: "barrx", N: 3, Code: 3, CodeU8: true, RegKey: "pubKeyHash"}}}},
+		}}
+		tapi := setup(ts)
+		p := reflect.New(ts.T)
+		genValue(vx.NewRng(7), ts, p.Elem())
+		h.encCase(nil, ts, tapi, p, false, true, "directed-bytearray-forms")
+		for _, doc := range []string{
+			`{"a":"0x01020304","b":{"type":3,"bk":"0x010203"},"c":{"type":3,"pubKeyHash":"0x010203"},"d":[{"type":3,"pubKeyHash":"0x01"}],"e":{"x":{"type":3,"pubKeyHash":"0x02"}},"gk":{"type":3,"pubKeyHash":"0x05"}}`,
+			`{"a":"0x01","b":"0x01","c":"0x01","d":[],"e":{},"gk":{"type":3,"gk":"0x05"}}`,
+			`{"a":{"data":"0x01"},"b":"0x01","c":"0x02","d":["0x03"],"e":{"x":"0x04"}}`,
+			`{"a":"0x01","b":{"type":9,"bk":"0x01"},"c":{"pubKeyHash":"0x01"},"d":[],"e":{}}`,
+			`{"a":"0x01","b":{"type":3,"pubKeyHash":"0x01"},"c":"0x","d":[],"e":{}}`,
+			`{"a":"0x01","b":"0x01","c":{"type":3},"d":[],"e":{}}`,
+			`{"a":"0x01","b":"0x01","c":{"type":3,"pubKeyHash":5},"d":[],"e":{}}`,
+			`{"a":null,"b":"0x01","c":"0x01","d":[],"e":{}}`,
+			`{"a":"0x01","b":"0x01","c":"0x01","d":[null],"e":{}}`,
+			`{"a":"0x01","b":"0x01","c":"0x01","d":[],"e":{"x":null},"f":null}`,
+			`{"a":"0x01","b":"0x01","c":"0x01","d":[],"e":{},"f":"0x01"}`,
+		} {
+			h.decCase(ts, tapi, lit(doc), false, "directed-bytearray-forms")
 		}
 	}
 	// fixed bb76e84: a nil non-optional *big.Int made the JSON encoder panic (nil dereference); the optional one is omitted
